@@ -5,11 +5,33 @@ open VM
 /-- the Go computation this result stands for did not panic -/
 def Ok (r : Res) : Prop := r.panicked = false
 
-structure JOk (J : Judges) : Prop where
-  schema : ∀ s p v, Ok (J.schema s p v)
+/-- the judges return normally: the schema judge on the schemas satisfying `Psch` (e.g. "every reference resolves") -/
+structure JOkOn (Psch : Schema → Prop) (J : Judges) : Prop where
+  schema : ∀ s p v, Psch s → Ok (J.schema s p v)
   param : ∀ p v, Ok (J.param p v)
   header : ∀ h v, Ok (J.header h v)
   items : ∀ a b c d v, Ok (J.items a b c d v)
+
+/-- judges that return normally on every schema -/
+abbrev JOk (J : Judges) : Prop := JOkOn (fun _ => True) J
+
+/-- `Psch` passes from a schema to the children the walk descends into -/
+def KidsClosed (Psch : Schema → Prop) : Prop :=
+  ∀ b itemsS itemsT addItemsS props patProps addPropsS deps allOf anyOf oneOf nt,
+    Psch (.mk b itemsS itemsT addItemsS props patProps addPropsS deps allOf anyOf oneOf nt) →
+      (∀ s, itemsS = some s → Psch s) ∧ (∀ s ∈ itemsT, Psch s) ∧ (∀ s, addItemsS = some s → Psch s)
+      ∧ (∀ p ∈ props, Psch p.2) ∧ (∀ p ∈ patProps, Psch p.2) ∧ (∀ s, addPropsS = some s → Psch s) ∧ (∀ s ∈ allOf, Psch s)
+
+theorem kidsClosed_true : KidsClosed (fun _ => True) := by
+  intro _ _ _ _ _ _ _ _ _ _ _ _ _
+  exact ⟨fun _ _ => trivial, fun _ _ => trivial, fun _ _ => trivial, fun _ _ => trivial, fun _ _ => trivial,
+    fun _ _ => trivial, fun _ _ => trivial⟩
+
+/-- the schemas the stages start their walks from -/
+def ViewP (Psch : Schema → Prop) (v : View) : Prop :=
+  (∀ o ∈ v.ops, (∀ p ∈ o.params, ∀ s, p.schema = some s → Psch s)
+    ∧ (∀ rs, o.responses = some rs → ∀ r ∈ rs, ∀ s, r.schema = some s → Psch s))
+  ∧ (∀ d ∈ v.defs, Psch d.2)
 
 theorem ok_empty : Ok ({} : Res) := rfl
 theorem mergeOne_ok {r o : Res} (h1 : Ok r) (h2 : Ok o) : Ok (r.mergeOne o) := by
@@ -37,26 +59,28 @@ theorem report_ok (w : Which) {res red : Res} (tag : Msg) (b : Bool) (h1 : Ok re
     · exact mergeAsWarningsOne_ok (addWarnings_ok h1 _) h2
     · exact mergeOne_ok (addWarnings_ok h1 _) h2
 
-variable (c : DCfg) (J : Judges) (w : Which) (O : Oracles) (inn : String) (hJ : JOk J)
-include hJ
+variable (c : DCfg) (J : Judges) (w : Which) (O : Oracles) (inn : String) (Psch : Schema → Prop) (hcl : KidsClosed Psch)
+  (hJ : JOkOn Psch J)
+include hJ hcl
 
 mutual
-theorem walk_ok (s : Schema) (path : String) (vis : List String) (r : Res)
+theorem walk_ok (s : Schema) (hs : Psch s) (path : String) (vis : List String) (r : Res)
     (h : (walk c J w O inn s path vis).1 = some r) : Ok r := by
-  match s with
-  | .mk b itemsS itemsT addItemsS props patProps addPropsS deps allOf anyOf oneOf nt =>
+  match s, hs with
+  | .mk b itemsS itemsT addItemsS props patProps addPropsS deps allOf anyOf oneOf nt, hs =>
+    obtain ⟨k1, k2, k3, k4, k5, k6, k7⟩ := hcl _ _ _ _ _ _ _ _ _ _ _ _ hs
     simp only [walk] at h
     split at h
     · cases h
     · simp only [Option.some.injEq] at h
       subst h
-      apply walkA_ok
+      apply walkA_ok _ k7
       have h0 : Ok ((match w.value b with
           | some v => mergeJ w {} (J.schema (.mk b itemsS itemsT addItemsS props patProps addPropsS deps allOf anyOf oneOf nt)
                                   (path ++ "." ++ w.suffix) v)
           | none => ({} : Res))) := by
         split
-        · exact mergeJ_ok w ok_empty (hJ.schema _ _ _)
+        · exact mergeJ_ok w ok_empty (hJ.schema _ _ _ hs)
         · exact ok_empty
       have step (o : Option Schema) (p' : String) (st : WSt) (hst : Ok st.1)
           (ho : ∀ s', o = some s' → ∀ vis' r', (walk c J w O inn s' p' vis').1 = some r' → Ok r') :
@@ -65,116 +89,122 @@ theorem walk_ok (s : Schema) (path : String) (vis : List String) (r : Res)
         | none => exact hst
         | some s' => exact thenOpt_ok _ _ hst (fun r' hr' => ho s' rfl _ r' hr')
       apply step addPropsS
-      · apply walkM_ok
-        apply walkM_ok
+      · apply walkM_ok _ k5
+        apply walkM_ok _ k4
         apply step addItemsS
         · show Ok (if patOK O b.pattern then _ else _)
           split
-          · apply walkL_ok
+          · apply walkL_ok _ k2
             apply step itemsS
             · exact h0
             · intro s' hs' vis' r' hr'
-              subst hs'
-              exact walk_ok s' _ vis' r' hr'
+              exact walk_ok s' (k1 s' hs') _ vis' r' hr'
           · apply addErrors_ok
-            apply walkL_ok
+            apply walkL_ok _ k2
             apply step itemsS
             · exact h0
             · intro s' hs' vis' r' hr'
-              subst hs'
-              exact walk_ok s' _ vis' r' hr'
+              exact walk_ok s' (k1 s' hs') _ vis' r' hr'
         · intro s' hs' vis' r' hr'
-          subst hs'
-          exact walk_ok s' _ vis' r' hr'
+          exact walk_ok s' (k3 s' hs') _ vis' r' hr'
       · intro s' hs' vis' r' hr'
-        subst hs'
-        exact walk_ok s' _ vis' r' hr'
-theorem walkL_ok (l : List Schema) (path : String) (i : Nat) (st : WSt) (h : Ok st.1) :
+        exact walk_ok s' (k6 s' hs') _ vis' r' hr'
+theorem walkL_ok (l : List Schema) (hl : ∀ s ∈ l, Psch s) (path : String) (i : Nat) (st : WSt) (h : Ok st.1) :
     Ok (walkL c J w O inn l path i st).1 := by
-  match l with
-  | [] => simpa [walkL] using h
-  | s :: ss =>
+  match l, hl with
+  | [], _ => simpa [walkL] using h
+  | s :: ss, hl =>
     simp only [walkL]
-    exact walkL_ok ss path (i + 1) _ (thenOpt_ok _ _ h (fun r hr => walk_ok s _ _ r hr))
-theorem walkM_ok (l : List (String × Schema)) (path : String) (st : WSt) (h : Ok st.1) :
+    exact walkL_ok ss (fun x hx => hl x (List.mem_cons_of_mem _ hx)) path (i + 1) _
+      (thenOpt_ok _ _ h (fun r hr => walk_ok s (hl s List.mem_cons_self) _ _ r hr))
+theorem walkM_ok (l : List (String × Schema)) (hl : ∀ p ∈ l, Psch p.2) (path : String) (st : WSt) (h : Ok st.1) :
     Ok (walkM c J w O inn l path st).1 := by
-  match l with
-  | [] => simpa [walkM] using h
-  | (name, s) :: ps =>
+  match l, hl with
+  | [], _ => simpa [walkM] using h
+  | (name, s) :: ps, hl =>
     simp only [walkM]
-    exact walkM_ok ps path _ (thenOpt_ok _ _ h (fun r hr => walk_ok s _ _ r hr))
-theorem walkA_ok (l : List Schema) (path : String) (i : Nat) (st : WSt) (h : Ok st.1) :
+    exact walkM_ok ps (fun x hx => hl x (List.mem_cons_of_mem _ hx)) path _
+      (thenOpt_ok _ _ h (fun r hr => walk_ok s (hl (name, s) List.mem_cons_self) _ _ r hr))
+theorem walkA_ok (l : List Schema) (hl : ∀ s ∈ l, Psch s) (path : String) (i : Nat) (st : WSt) (h : Ok st.1) :
     Ok (walkA c J w O inn l path i st).1 := by
-  match l with
-  | [] => simpa [walkA] using h
-  | s :: ss =>
+  match l, hl with
+  | [], _ => simpa [walkA] using h
+  | s :: ss, hl =>
     simp only [walkA]
-    exact walkA_ok ss path (i + 1) _ (thenOpt_ok _ _ h (fun r hr => walk_ok s _ _ r hr))
+    exact walkA_ok ss (fun x hx => hl x (List.mem_cons_of_mem _ hx)) path (i + 1) _
+      (thenOpt_ok _ _ h (fun r hr => walk_ok s (hl s List.mem_cons_self) _ _ r hr))
 end
 
-omit hJ in
+omit hJ hcl in
 theorem foldl_ok {α : Type} (f : Res → α → Res) (hf : ∀ r a, Ok r → Ok (f r a)) (l : List α) (r : Res) (h : Ok r) :
     Ok (l.foldl f r) := by
   induction l generalizing r with
   | nil => exact h
   | cons a l ih => exact ih _ (hf r a h)
 
-omit hJ in
+omit hJ hcl in
 theorem reportIf_ok (w : Which) {res red : Res} (tag : Msg) (b : Bool) (h1 : Ok res) (h2 : Ok red) : Ok (reportIf w res tag red b) := by
   unfold reportIf; split
   · exact report_ok w tag b h1 h2
   · exact h1
 
+omit hcl in
 theorem itemsHere_ok (rootFmt : String) (l : ItemLevel) (rest : List ItemLevel) (path : String) :
     Ok (itemsHere J w inn rootFmt l rest path) := by
   unfold itemsHere; split
   · exact mergeJ_ok w ok_empty (hJ.items _ _ _ _ _)
   · exact ok_empty
 
-omit hJ in
+omit hJ hcl in
 theorem itemsPattern_ok (l : ItemLevel) (path : String) (res : Res) (h : Ok res) : Ok (itemsPattern O inn l path res) := by
   unfold itemsPattern; split
   · exact h
   · exact addErrors_ok h _
 
+omit hcl in
 theorem walkItems_ok (rootFmt : String) (chain : List ItemLevel) (path : String) :
     Ok (walkItems J w O inn rootFmt chain path) := by
   match chain with
   | [] => exact ok_empty
-  | [l] => exact itemsPattern_ok O inn l path _ (itemsHere_ok J w inn hJ rootFmt l [] path)
+  | [l] => exact itemsPattern_ok O inn l path _ (itemsHere_ok J w inn Psch hJ rootFmt l [] path)
   | l :: l' :: rest =>
     rw [walkItems]
     exact itemsPattern_ok O inn l path _
-      (mergeOne_ok (itemsHere_ok J w inn hJ rootFmt l _ path) (walkItems_ok rootFmt (l' :: rest) _))
+      (mergeOne_ok (itemsHere_ok J w inn Psch hJ rootFmt l _ path) (walkItems_ok rootFmt (l' :: rest) _))
 
-omit hJ in
+omit hJ hcl in
 theorem paramWarn_ok (res : Res) (p : Param) (h : Ok res) : Ok (paramWarn w res p) := by
   unfold paramWarn; split
   · exact addWarnings_ok h _
   · exact h
 
+omit hcl in
 theorem paramSimple_ok (res : Res) (p : Param) (h : Ok res) : Ok (paramSimple J w res p) := by
   unfold paramSimple; split
   · exact reportIf_ok w _ _ h (hJ.param _ _)
   · exact h
 
+omit hcl in
 theorem paramItems_ok (res : Res) (p : Param) (h : Ok res) : Ok (paramItems J w O res p) := by
   unfold paramItems; split
   · exact h
-  · exact reportIf_ok w _ _ h (walkItems_ok J w O p.loc hJ _ _ _)
+  · exact reportIf_ok w _ _ h (walkItems_ok J w O p.loc Psch hJ _ _ _)
 
-theorem paramSchema_ok (res : Res) (p : Param) (h : Ok res) : Ok (paramSchema c J w O res p) := by
+theorem paramSchema_ok (res : Res) (p : Param) (hp : ∀ s, p.schema = some s → Psch s) (h : Ok res) :
+    Ok (paramSchema c J w O res p) := by
   unfold paramSchema; split
-  · rename_i s _
+  · rename_i s hs
     split
     · rename_i red hred
-      exact reportIf_ok w _ _ h (walk_ok c J w O p.loc hJ s _ _ red hred)
+      exact reportIf_ok w _ _ h (walk_ok c J w O p.loc Psch hcl hJ s (hp s hs) _ _ red hred)
     · exact h
   · exact h
 
-theorem paramStage_ok (res : Res) (p : Param) (h : Ok res) : Ok (paramStage c J w O res p) :=
-  paramSchema_ok c J w O hJ _ p (paramItems_ok J w O hJ _ p (paramSimple_ok J w hJ _ p (paramWarn_ok w res p h)))
+theorem paramStage_ok (res : Res) (p : Param) (hp : ∀ s, p.schema = some s → Psch s) (h : Ok res) :
+    Ok (paramStage c J w O res p) :=
+  paramSchema_ok c J w O Psch hcl hJ _ p hp (paramItems_ok J w O Psch hJ _ p (paramSimple_ok J w Psch hJ _ p (paramWarn_ok w res p h)))
 
+omit hcl in
 theorem headerStage_ok (opId : String) (r : Response) (res : Res) (hd : Header) (h : Ok res) :
     Ok (headerStage J w O opId r res hd) := by
   unfold headerStage headerPattern
@@ -185,54 +215,69 @@ theorem headerStage_ok (opId : String) (r : Response) (res : Res) (hd : Header) 
   have h2 : Ok (headerItems J w O opId r (headerSimple J w opId r res hd) hd) := by
     unfold headerItems; split
     · exact h1
-    · exact reportIf_ok w _ _ h1 (walkItems_ok J w O "header" hJ _ _ _)
+    · exact reportIf_ok w _ _ h1 (walkItems_ok J w O "header" Psch hJ _ _ _)
   split
   · exact h2
   · exact addErrors_ok h2 _
 
-theorem respSchema_ok (o : Op) (r : Response) (res : Res) (h : Ok res) : Ok (respSchema c J w O o r res) := by
+theorem respSchema_ok (o : Op) (r : Response) (hr : ∀ s, r.schema = some s → Psch s) (res : Res) (h : Ok res) :
+    Ok (respSchema c J w O o r res) := by
   unfold respSchema; split
-  · rename_i s _
+  · rename_i s hs
     split
     · rename_i red hred
-      exact reportIf_ok w _ _ h (walk_ok c J w O "response" hJ s _ _ red hred)
+      exact reportIf_ok w _ _ h (walk_ok c J w O "response" Psch hcl hJ s (hr s hs) _ _ red hred)
     · exact h
   · exact h
 
-theorem respExamples_ok (o : Op) (r : Response) (res : Res) (h : Ok res) : Ok (respExamples J w o r res) := by
+omit hcl in
+theorem respExamples_ok (o : Op) (r : Response) (hr : ∀ s, r.schema = some s → Psch s) (res : Res) (h : Ok res) :
+    Ok (respExamples J w o r res) := by
   unfold respExamples; split
   · split
-    · split
-      · exact mergeAsWarningsOne_ok h (hJ.schema _ _ _)
+    · rename_i s hs
+      split
+      · exact mergeAsWarningsOne_ok h (hJ.schema _ _ _ (hr s hs))
       · exact addWarnings_ok h _
     · exact addWarnings_ok h _
   · exact h
 
-theorem responseStage_ok (o : Op) (r : Response) : Ok (responseStage c J w O o r) :=
-  respExamples_ok J w hJ o r _ (respSchema_ok c J w O hJ o r _
-    (foldl_ok _ (fun res hd h => headerStage_ok J w O hJ o.id r res hd h) _ _ ok_empty))
+theorem responseStage_ok (o : Op) (r : Response) (hr : ∀ s, r.schema = some s → Psch s) : Ok (responseStage c J w O o r) :=
+  respExamples_ok J w Psch hJ o r hr _ (respSchema_ok c J w O Psch hcl hJ o r hr _
+    (foldl_ok _ (fun res hd h => headerStage_ok J w O Psch hJ o.id r res hd h) _ _ ok_empty))
 
-theorem opStage_ok (res : Res) (o : Op) (h : Ok res) : Ok (opStage c J w O res o) := by
+omit hJ hcl in
+theorem foldl_ok_mem {α : Type} (f : Res → α → Res) (l : List α) (hf : ∀ r, ∀ a ∈ l, Ok r → Ok (f r a)) (r : Res) (h : Ok r) :
+    Ok (l.foldl f r) := by
+  induction l generalizing r with
+  | nil => exact h
+  | cons a l ih => exact ih (fun r b hb => hf r b (List.mem_cons_of_mem _ hb)) _ (hf r a List.mem_cons_self h)
+
+theorem opStage_ok (res : Res) (o : Op) (hp : ∀ p ∈ o.params, ∀ s, p.schema = some s → Psch s)
+    (hr : ∀ rs, o.responses = some rs → ∀ r ∈ rs, ∀ s, r.schema = some s → Psch s) (h : Ok res) : Ok (opStage c J w O res o) := by
   unfold opStage opResponses
   have h1 : Ok (o.params.foldl (paramStage c J w O) res) :=
-    foldl_ok _ (fun r p hr => paramStage_ok c J w O hJ r p hr) _ _ h
+    foldl_ok_mem _ _ (fun r p hpm hr' => paramStage_ok c J w O Psch hcl hJ r p (hp p hpm) hr') _ h
   split
-  · exact foldl_ok _ (fun acc r hacc => mergeOne_ok hacc (responseStage_ok c J w O hJ o r)) _ _ h1
+  · rename_i rs hrs
+    exact foldl_ok_mem _ _ (fun acc r hrm hacc => mergeOne_ok hacc (responseStage_ok c J w O Psch hcl hJ o r (hr rs hrs r hrm))) _ h1
   · split
     · exact addErrors_ok h1 _
     · exact h1
 
-theorem defsStage_ok (defs : List (String × Schema)) (res : Res) (vis : List String) (h : Ok res) :
+theorem defsStage_ok (defs : List (String × Schema)) (hd : ∀ d ∈ defs, Psch d.2) (res : Res) (vis : List String) (h : Ok res) :
     Ok (defsStage c J w O defs res vis) := by
   induction defs generalizing res vis with
   | nil => exact h
   | cons d rest ih =>
     obtain ⟨nm, s⟩ := d
     simp only [defsStage]
-    exact ih _ _ (mergeOpt_ok _ h (fun x hx => walk_ok c J w O "body" hJ s _ _ x hx))
+    exact ih (fun x hx => hd x (List.mem_cons_of_mem _ hx)) _ _
+      (mergeOpt_ok _ h (fun x hx => walk_ok c J w O "body" Psch hcl hJ s (hd (nm, s) List.mem_cons_self) _ _ x hx))
 
 /-- the default / example stage adds no panic of its own -/
-theorem valueStage_ok (v : View) : Ok (valueStage c J w O v) :=
-  defsStage_ok c J w O hJ _ _ _ (foldl_ok _ (fun r o hr => opStage_ok c J w O hJ r o hr) _ _ ok_empty)
+theorem valueStage_ok (v : View) (hv : ViewP Psch v) : Ok (valueStage c J w O v) :=
+  defsStage_ok c J w O Psch hcl hJ _ hv.2 _ _
+    (foldl_ok_mem _ _ (fun r o ho hr => opStage_ok c J w O Psch hcl hJ r o (hv.1 o ho).1 (hv.1 o ho).2 hr) _ ok_empty)
 
 end VM.Sw
